@@ -39,3 +39,16 @@ func VRemoveSession(s *Server, sess *yamux.Session) { s.removeSession(sess) }
 
 // VOpenSessions is Server.openSessions.
 func VOpenSessions(s *Server) int { return s.openSessions() }
+
+// VClientOn starts the listener side of the session (what a connected upstream client runs) on
+// the peer end of the pipe, so that the server side can open streams (a proxied request in flight).
+func VClientOn(conn net.Conn) *yamux.Session {
+	muxConfig := yamux.DefaultConfig()
+	muxConfig.EnableKeepAlive = false
+	muxConfig.LogOutput = io.Discard
+	sess, err := yamux.Client(conn, muxConfig)
+	if err != nil {
+		panic("yamux client: " + err.Error())
+	}
+	return sess
+}
